@@ -601,6 +601,10 @@ def configs(tier, rng):
                 dict(lattice_sizes=[3, 1]), dict(unimodalities=[1, 0]), dict(lattice_sizes=[3, 2], unimodalities=[0, 1]),
                 dict(edgeworth_trusts=[[1, 0, 1]]), dict(trapezoid_trusts=[[1, 0, 1]]),
                 dict(monotonicities=[1, 1], edgeworth_trusts=[[0, 1, 1], [1, 0, 1]]),
+                # one trust tuple whose main and conditional feature coincide
+                dict(edgeworth_trusts=[[0, 0, 1]]), dict(trapezoid_trusts=[[0, 0, -1]]),
+                dict(lattice_sizes=[3, 2], edgeworth_trusts=[[0, 0, 'positive']]),
+                dict(monotonicities=[1, 1], trapezoid_trusts=[[1, 1, 1]]),
                 dict(monotonic_dominances=[[0, 1]]), dict(range_dominances=[[0, 1]]),
                 dict(output_min=1.0, output_max=0.0), dict(monotonicities=[1, 0, 0])):
     jobs.append(('config', dict(kind='lattice', kw=dict(base, **fault))))
